@@ -100,6 +100,15 @@ CLAIMED = {
         "The dof divisor and the scale of Minnesota dummy observations are undocumented; both readings are accepted (see ASSUMPTIONS). Regressor condition number <= 1e3 by construction.",
         "DESIGN.md section 3, C18",
     ),
+    "C08": (
+        "Hypothesis-generated models/data/masks; smoothed output judged by the harness's own equation evaluator, a re-simulation round trip and the deviation/level metamorphic relation",
+        "On the same generated domain as C03 (additive and log-linear renderings, measurement shocks, missing-data masks), smooth_med must equal "
+        "the data where observed and be NaN elsewhere, satisfy every measurement equation (smoothed measurement shocks, log-variables) and "
+        "every lead-free transition equation under the harness's own evaluator, be reproduced by simulate() started from its first periods with "
+        "the smoothed shocks, and satisfy level-mode = steady (+|*) deviation-mode.",
+        "Equations are judged where all values they read are inside the returned span; singular observation covariances are excluded by construction; tolerance 1e-8 relative.",
+        "DESIGN.md section 3, C08",
+    ),
 }
 
 NOT_BUILT_REASON = "check not built yet in this round (design in DESIGN.md section 3); not claimed until it is quiet on the unchanged tree and kills its mutants"
